@@ -240,9 +240,10 @@ where
             }
             if !delta.is_finite() {
                 rep.count("rows_nonfinite_reference_energy");
-                if delta.is_nan() && !logp_after[row].is_nan() {
-                    // only the f64 reference blew up (unstable trajectory): nothing can be said
-                    rep.inconclusive("reference energy NaN on an unstable trajectory while the sampler's own values are finite");
+                if logp_after[row].is_finite() {
+                    // only the f64 reference blew up (unstable trajectory, the f32/f64 paths have
+                    // diverged chaotically): nothing can be said about this row
+                    rep.inconclusive("reference energy non-finite on an unstable trajectory while the sampler's own values are finite");
                     rejected_before[row] = stayed;
                     continue;
                 }
